@@ -75,6 +75,11 @@ func cvalText(v *aCVal) string {
 		return `{"f": 1}`
 	case "emap":
 		return `{}`
+	case "struct":
+		if v.FV == nil || v.FV.K == "none" {
+			return "{}"
+		}
+		return `{"f": ` + cvalText(v.FV) + "}"
 	case "list":
 		if v.FV == nil {
 			return "[]"
